@@ -100,6 +100,8 @@ def resolve(x, how):
             return tuple(resolve(i, how) for i in x["$tuple"])
         if "$dtype" in x:
             return numpy.dtype(x["$dtype"])
+        if "$npint" in x:
+            return numpy.int64(x["$npint"])
         if "$fn" in x:
             return _callable(x["$fn"], how)
         return {k: resolve(v, how) for k, v in x.items()}
@@ -186,6 +188,9 @@ def axis_of(draw, ndim, none=True, neg=True, tuples=False):
         opts += [{"$tuple": [0, 1]}, {"$tuple": [-1, 0]}, {"$tuple": [0, -1]}, {"$tuple": [-1, -2]}, {"$tuple": [-1]}]
         if ndim >= 3:
             opts += [{"$tuple": [0, 2]}, {"$tuple": [0, 1, 2]}]
+    if ndim:
+        # an axis given as a numpy integer (what numpy.argmax & co. return) is an int for numpy
+        opts += [{"$npint": 0}, {"$npint": ndim - 1}] + ([{"$npint": -1}] if neg else [])
     return draw(st.sampled_from(opts))
 
 
